@@ -45,6 +45,64 @@ def _rename_in_terms(prog, old_rel, new_rel):
                         fo[k] = re.sub(r"(?<![A-Za-z0-9_])%s(?![A-Za-z0-9_])" % re.escape(new_rel), old_rel, v)
 
 
+def normalise_fields_and_consts(prog):
+    """private struct fields and constants that were merely renamed get their reference names back (same ADT path, same field types in the same
+    order; same module, type and value for a constant)"""
+    with open(os.path.join(VERIF, "tables", "known_fns.json")) as f:
+        ref = json.load(f)
+    out = {}
+    ref_names = {fn_ for vs in ref.get("adts", {}).values() for v in vs for fn_, ft in v}
+    ren = {}
+    for path, vs in ref.get("adts", {}).items():
+        a = prog.adts.get(path)
+        if not a or len(a["variants"]) != len(vs):
+            continue
+        for v_ref, v_cur in zip(vs, a["variants"]):
+            cur = v_cur["fields"]
+            if len(cur) != len(v_ref) or [t for n, t in cur] != [t for n, t in v_ref]:
+                continue
+            for (n_old, t_old), fld in zip(v_ref, cur):
+                n_new = fld[0]
+                if n_new != n_old and n_new not in ref_names and ren.get(n_new, n_old) == n_old:
+                    ren[n_new] = n_old
+                    fld[0] = n_old
+    if ren:
+        def fix(pl):
+            for e in pl["p"]:
+                if isinstance(e, dict) and e.get("n") in ren:
+                    e["n"] = ren[e["n"]]
+        for f in list(prog.fns.values()) + list(prog.promoted.values()):
+            for b in f.blocks:
+                for st in b["stmts"]:
+                    fix(st["lhs"])
+                    r = st["rhs"]
+                    if "pl" in r:
+                        fix(r["pl"])
+                    for o in r.get("ops", []):
+                        if o.get("pl"):
+                            fix(o["pl"])
+                t = b["term"]
+                for o in list(t.get("args", [])) + [t.get("discr"), t.get("cond"), t.get("fnop")] + list(t.get("mops", [])):
+                    if isinstance(o, dict) and o.get("pl"):
+                        fix(o["pl"])
+                for k in ("dest", "pl"):
+                    if isinstance(t.get(k), dict) and "p" in t[k]:
+                        fix(t[k])
+        out["fields"] = ren
+    cren = {}
+    for name, (ty, val) in ref.get("consts", {}).items():
+        if name in prog.consts:
+            continue
+        mod = name.rsplit("::", 1)[0]
+        cands = [k for k, c in prog.consts.items() if k not in ref.get("consts", {}) and k.rsplit("::", 1)[0] == mod and c.get("ty") == ty and c.get("val") == val]
+        if len(cands) == 1:
+            prog.consts[name] = prog.consts[cands[0]]
+            cren[cands[0]] = name
+    if cren:
+        out["consts"] = cren
+    return out
+
+
 def normalise_renames(prog, ws=("msi", "msi_ffi")):
     """a private function of the reference tree that is missing today, with exactly one new function of the same signature in the same
     module/impl (renamed) or with the same name elsewhere (moved), is given its reference name back, at its definition and at every call site"""
@@ -182,6 +240,8 @@ def inline_into(fn, callee_of, eligible, depth=0):
 def run(prog, ws=("msi", "msi_ffi")):
     """inline unknown same-workspace helpers into every analysed function; returns {fn name: [helpers inlined]}"""
     prog.renamed = normalise_renames(prog, ws) if ws == ("msi", "msi_ffi") else {}
+    if ws == ("msi", "msi_ffi"):
+        prog.renamed.update(normalise_fields_and_consts(prog))
     known = load_known()
 
     def eligible(g):
